@@ -15,6 +15,7 @@ def plans(tier):
         return [(3, "10", 2, "{1}", "FALSE", "FALSE", "FALSE"), (3, "12", 2, "{1}", "FALSE", "FALSE", "FALSE"),
                 (1, "10", 2, "{1}", "FALSE", "TRUE", "FALSE"), (1, "12", 2, "{1}", "TRUE", "FALSE", "FALSE"),
                 (1, "1", 2, "{1}", "FALSE", "FALSE", "FALSE"),
+                (1, "2", 2, "{1}", "TRUE", "FALSE", "FALSE"),   # the one version with sender-chosen event IDs and algorithm v2
                 (2, "10", 1, "{1, 2}", "TRUE", "FALSE", "FALSE"), (2, "12", 1, "{1, 2}", "FALSE", "FALSE", "FALSE"),
                 (2, "1", 1, "{1}", "TRUE", "FALSE", "FALSE"),
                 # dishonest servers: events their own state does not allow sit in the branches
